@@ -1,5 +1,6 @@
 """C18 HTTP Datagrams carry their stream ID and payload unchanged (structural clauses)."""
 from engine import flow as fl, ru, paths as pa
+from rules import shared
 
 EXPLANATION = (
     "Static def-use and path analysis of h3-datagram's Datagram::{encode,decode}, DatagramSender::send_datagram "
@@ -9,7 +10,7 @@ EXPLANATION = (
     "StreamId::try_from, keeps the rest of the buffer as payload, and both failures carry H3_DATAGRAM_ERROR; "
     "(c) the reader reports decode failures connection-level. Decides these structural clauses, not the value-level "
     "round trip nor the EncodedDatagram chunk/advance arithmetic.")
-RULES = "C18-a encode header flow; C18-b inverse constants + error code; C18-c reader error routing; C18-d sender uses its own stream id"
+RULES = "C18-a encode header flow; C18-b inverse constants + error code; C18-c reader error routing; C18-d sender uses its own stream id; C18-e header/payload cursor of the encoded buffer (extracted-expression evaluation over small states)"
 
 DG = "h3_datagram::datagram::Datagram"
 ENC = "h3_datagram::datagram::EncodedDatagram"
@@ -159,4 +160,6 @@ def run(ctx):
             o = f.origin(t.args[1])
             ctx.check(o[0] == "call" and o[1] == DG + "::encode", "C18-d", sd.key, "handler receives encode() of it",
                       "the handler receives %s, expected Datagram::encode(..)" % fl.fmt(o), "", sd.loc(t))
+    # ---------------- C18-e how the encoded buffer is consumed (chunk/advance patterns)
+    shared.header_payload_cursor(ctx, "C18-e", "<h3_datagram::datagram::EncodedDatagram as bytes::buf::buf_impl::Buf>::", "stream_id")
     ctx.assume("semantics of VarInt::encode/size/decode are decided under C16")
